@@ -210,6 +210,10 @@ OnPrepare(ev, T0, Y) ==
       w == <<ev.wire, ev.stream>>
       f == Get(Y.sends, w, 0)
   IN IF f # 0 /\ T.fl[f].st = "new" /\ T.fl[f].key = k THEN Res(SendPrepare(T, f), Y, "", "")
+     ELSE IF f # 0 /\ T.fl[f].key = k /\ T.fl[f].st \in {"fail", "done_fail"}
+     THEN \* the node logs a frame after it has read it: the driver may already have given the PREPARE up
+          \* (connection killed right after the frame was read)
+          Res([T EXCEPT !.nprep[k] = @ + 1], Y, "", "")
      ELSE \* a PREPARE no single-flight entry accounts for: it counts all the same
           Res([T EXCEPT !.nprep[k] = @ + 1], Y, "", "prepare-unattributed")
 
